@@ -11,6 +11,7 @@ package main
 import (
 	"archive/zip"
 	"bufio"
+	"bytes"
 	"crypto/sha1"
 	"encoding/json"
 	"encoding/xml"
@@ -24,6 +25,7 @@ import (
 	"sort"
 	"strconv"
 	"strings"
+	"time"
 
 	"github.com/deadsy/sdfx/render"
 	"github.com/deadsy/sdfx/sdf"
@@ -36,7 +38,13 @@ import (
 	. "verifharness/kit"
 )
 
-func main() { Main("C15", checkC15, iogen.Gen) }
+func main() {
+	if len(os.Args) >= 2 && os.Args[1] == "hist" { // one history of exports in a fresh process (hist.go)
+		histMain()
+		return
+	}
+	Main("C15", checkC15, iogen.Gen, stateGen)
+}
 
 // ------------------------------------------------------------------ inputs
 
@@ -45,26 +53,47 @@ type Tri [3]P3
 type Seg [2][2]float64
 
 // scripted renderers: Write the given chunks in order, then Close (what every renderer in /repo does)
-type script3 struct{ chunks [][]Tri }
+// An optional hook runs from inside Render once `at` chunks have been written (re-entrant exports).
+type script3 struct {
+	chunks [][]Tri
+	at     int
+	hook   func()
+}
 
 func (s *script3) Info(sdf.SDF3) string { return "scripted" }
 func (s *script3) Render(_ sdf.SDF3, out sdf.Triangle3Writer) {
-	for _, ch := range s.chunks {
+	for i, ch := range s.chunks {
+		if s.hook != nil && i == s.at {
+			s.hook()
+		}
 		ts := make([]*sdf.Triangle3, len(ch))
 		for i, t := range ch {
 			ts[i] = &sdf.Triangle3{v3.Vec{X: t[0][0], Y: t[0][1], Z: t[0][2]}, v3.Vec{X: t[1][0], Y: t[1][1], Z: t[1][2]}, v3.Vec{X: t[2][0], Y: t[2][1], Z: t[2][2]}}
 		}
 		out.Write(ts)
 	}
+	if s.hook != nil && s.at >= len(s.chunks) {
+		s.hook()
+	}
 	out.Close()
 }
 
-type script2 struct{ chunks [][]Seg }
+type script2 struct {
+	chunks [][]Seg
+	at     int
+	hook   func()
+}
 
 func (s *script2) Info(sdf.SDF2) string { return "scripted" }
 func (s *script2) Render(_ sdf.SDF2, out sdf.Line2Writer) {
-	for _, ch := range s.chunks {
+	for i, ch := range s.chunks {
+		if s.hook != nil && i == s.at {
+			s.hook()
+		}
 		out.Write(toLines(ch))
+	}
+	if s.hook != nil && s.at >= len(s.chunks) {
+		s.hook()
 	}
 	out.Close()
 }
@@ -187,6 +216,33 @@ func segChunksTerm(ch [][]Seg) string {
 	return CList(bs)
 }
 
+// xmlOneDocument decodes the root element into v and insists that nothing but white space, comments and
+// processing instructions follows it (encoding/xml's Unmarshal stops reading at the end of the root element).
+func xmlOneDocument(b []byte, v interface{}) error {
+	d := xml.NewDecoder(bytes.NewReader(b))
+	if err := d.Decode(v); err != nil {
+		return err
+	}
+	for {
+		tok, err := d.Token()
+		if err == io.EOF {
+			return nil
+		}
+		if err != nil {
+			return fmt.Errorf("after the root element: %v", err)
+		}
+		switch t := tok.(type) {
+		case xml.CharData:
+			if len(bytes.TrimSpace(t)) != 0 {
+				return fmt.Errorf("text after the end of the root element: %.40q", string(t))
+			}
+		case xml.Comment, xml.ProcInst:
+		default:
+			return fmt.Errorf("markup after the end of the root element")
+		}
+	}
+}
+
 // ------------------------------------------------------------------ 3MF
 
 type rawModel struct {
@@ -246,7 +302,7 @@ func read3MFRaw(path string) (*mfObs, []string) {
 		return nil, []string{err.Error()}
 	}
 	var m rawModel
-	if err := xml.Unmarshal(b, &m); err != nil {
+	if err := xmlOneDocument(b, &m); err != nil {
 		return nil, []string{"model part is not well-formed XML: " + err.Error()}
 	}
 	if m.Unit != "millimeter" {
@@ -302,8 +358,12 @@ func f32key(p P3) [3]float32 {
 func check3MF(dir string, chunks [][]Tri) (obs *mfObs, bad []string) {
 	path := filepath.Join(dir, "t.3mf")
 	os.Remove(path)
-	quiet(func() { render.To3MF(nil, path, &script3{chunks}) })
-	in := flatT(chunks)
+	quiet(func() { render.To3MF(nil, path, &script3{chunks: chunks}) })
+	return verify3MF(path, flatT(chunks))
+}
+
+// verify3MF reads a 3MF file back and checks it against the property text for the supplied triangles.
+func verify3MF(path string, in []Tri) (obs *mfObs, bad []string) {
 	obs, bad = read3MFRaw(path)
 	if obs == nil {
 		return nil, bad
@@ -483,6 +543,13 @@ func readDXFRaw(path string) ([]dxfEnt, error) {
 	if nsec != 1 {
 		return nil, fmt.Errorf("%d ENTITIES sections", nsec)
 	}
+	// the file is one drawing: the EOF marker is its last group, and the only one (a file written over a longer
+	// one without truncation carries the tail of the old file)
+	for i, p := range pairs {
+		if last := i == len(pairs)-1; (p[0] == "0" && p[1] == "EOF") != last {
+			return nil, fmt.Errorf("the EOF marker is not the last (and only the last) group of the file (group %d of %d)", i, len(pairs))
+		}
+	}
 	return ents, nil
 }
 
@@ -500,23 +567,46 @@ var dxfUnit = new(big.Int).Exp(big.NewInt(10), big.NewInt(dxfDecimals), nil)
 func checkDXF(dir string, variant int, chunks [][]Seg) (obs *dxfObs, bad []string) {
 	path := filepath.Join(dir, "t.dxf")
 	os.Remove(path)
-	in := flatS(chunks)
+	if err := writeDXFVia(path, variant, chunks, 0, nil); err != nil {
+		return nil, []string{err.Error()}
+	}
+	return verifyDXF(path, flatS(chunks))
+}
+
+// writeDXFVia exports the segments through one of the three DXF entry points; hook (optional) runs once
+// `at` chunks have been handed over (ToDXF: from inside the renderer; object API: between the Lines calls;
+// SaveDXF takes the whole list at once: before the call).
+func writeDXFVia(path string, variant int, chunks [][]Seg, at int, hook func()) error {
 	switch variant {
 	case 0:
-		quiet(func() { render.ToDXF(nil, path, &script2{chunks}) })
+		quiet(func() { render.ToDXF(nil, path, &script2{chunks, at, hook}) })
 	case 1:
-		if err := render.SaveDXF(path, toLines(in)); err != nil {
-			return nil, []string{"SaveDXF: " + err.Error()}
+		if hook != nil {
+			hook()
+		}
+		if err := render.SaveDXF(path, toLines(flatS(chunks))); err != nil {
+			return fmt.Errorf("SaveDXF: %v", err)
 		}
 	default:
 		d := render.NewDXF(path)
-		for _, ch := range chunks {
+		for i, ch := range chunks {
+			if hook != nil && i == at {
+				hook()
+			}
 			d.Lines(toLines(ch))
 		}
+		if hook != nil && at >= len(chunks) {
+			hook()
+		}
 		if err := d.Save(); err != nil {
-			return nil, []string{"DXF.Save: " + err.Error()}
+			return fmt.Errorf("DXF.Save: %v", err)
 		}
 	}
+	return nil
+}
+
+// verifyDXF reads a DXF file back and checks it against the property text for the supplied segments.
+func verifyDXF(path string, in []Seg) (obs *dxfObs, bad []string) {
 	ents, err := readDXFRaw(path)
 	if err != nil {
 		return nil, []string{"DXF file not readable: " + err.Error()}
@@ -640,30 +730,55 @@ func near(p *big.Int, d *big.Rat) bool {
 func checkSVG(dir string, variant int, style string, chunks [][]Seg) (obs *svgObs, bad []string) {
 	path := filepath.Join(dir, "t.svg")
 	os.Remove(path)
-	in := flatS(chunks)
+	style, err := writeSVGVia(path, variant, style, chunks, 0, nil)
+	if err != nil {
+		return nil, []string{err.Error()}
+	}
+	return verifySVG(path, style, flatS(chunks))
+}
+
+// writeSVGVia exports the segments through one of the three SVG entry points and returns the line style the
+// file must carry (ToSVG has a fixed one); hook as for writeDXFVia.
+func writeSVGVia(path string, variant int, style string, chunks [][]Seg, at int, hook func()) (string, error) {
 	switch variant {
 	case 0:
 		style = toSVGStyle
-		quiet(func() { render.ToSVG(nil, path, &script2{chunks}) })
+		quiet(func() { render.ToSVG(nil, path, &script2{chunks, at, hook}) })
 	case 1:
-		if err := render.SaveSVG(path, style, toLines(in)); err != nil {
-			return nil, []string{"SaveSVG: " + err.Error()}
+		if hook != nil {
+			hook()
+		}
+		if err := render.SaveSVG(path, style, toLines(flatS(chunks))); err != nil {
+			return style, fmt.Errorf("SaveSVG: %v", err)
 		}
 	default:
 		s := render.NewSVG(path, style)
-		for _, l := range in {
-			s.Line(v2.Vec{X: l[0][0], Y: l[0][1]}, v2.Vec{X: l[1][0], Y: l[1][1]})
+		for i, ch := range chunks {
+			if hook != nil && i == at {
+				hook()
+			}
+			for _, l := range ch {
+				s.Line(v2.Vec{X: l[0][0], Y: l[0][1]}, v2.Vec{X: l[1][0], Y: l[1][1]})
+			}
+		}
+		if hook != nil && at >= len(chunks) {
+			hook()
 		}
 		if err := s.Save(); err != nil {
-			return nil, []string{"SVG.Save: " + err.Error()}
+			return style, fmt.Errorf("SVG.Save: %v", err)
 		}
 	}
+	return style, nil
+}
+
+// verifySVG reads an SVG file back and checks it against the property text for the supplied segments.
+func verifySVG(path, style string, in []Seg) (obs *svgObs, bad []string) {
 	b, err := os.ReadFile(path)
 	if err != nil {
 		return nil, []string{err.Error()}
 	}
 	var r rawSVG
-	if err := xml.Unmarshal(b, &r); err != nil {
+	if err := xmlOneDocument(b, &r); err != nil {
 		return nil, []string{"SVG is not well-formed XML: " + err.Error()}
 	}
 	if r.XMLName.Local != "svg" {
@@ -1011,6 +1126,10 @@ type corpusT struct {
 		Note string  `json:"note"`
 		Ops  []DxfOp `json:"ops"`
 	} `json:"dxfops"`
+	Hist []struct {
+		Note  string  `json:"note"`
+		Steps []HStep `json:"steps"`
+	} `json:"hist"`
 }
 
 func finiteT(ch [][]Tri) bool {
@@ -1146,7 +1265,86 @@ func checkC15(c *Ctx, r *Report) error {
 		csSVG.Add(svgCaseTerm(id, variant, chunks, obs))
 	}
 
+	// histories of export calls in this one process (hist.go)
+	hdir := filepath.Join(dir, "hist")
+	histViol, histDead := 0, false
+	histCnt := map[string]int{}
+	var histPrior []HStep
+	devfull := haveDevFull()
+	histCase := func(stratum string, steps []HStep) {
+		if histDead || !validHist(steps, 0) {
+			return
+		}
+		key := keyOf("hist", steps)
+		h := runHistTimed(hdir, steps, histTimeout)
+		bad := []string{histHang}
+		written := 0
+		if h == nil {
+			histDead = true // goroutines of the implementation are stuck: nothing more can be learnt in this process
+		} else {
+			bad = h.bad
+			for _, f := range h.files {
+				id++
+				if f.step.items() >= 1 {
+					written++
+				}
+				switch f.step.F {
+				case "3mf":
+					obs := f.mf
+					if obs == nil {
+						obs = &mfObs{verts: [][3]*big.Int{{big.NewInt(-1), big.NewInt(-1), big.NewInt(-1)}}}
+					}
+					csMF.Add(mfCaseTerm(id, f.step.T, obs))
+				case "dxf":
+					obs := f.dxf
+					if obs == nil {
+						obs = &dxfObs{layers: []string{"unreadable"}, pts: [][6]*big.Int{{big.NewInt(0), big.NewInt(0), big.NewInt(0), big.NewInt(0), big.NewInt(0), big.NewInt(0)}}}
+					}
+					csDXF.Add(dxfCaseTerm(id, f.step.Via, f.step.S, obs))
+				default:
+					obs := f.svg
+					if obs == nil {
+						obs = &svgObs{w: big.NewInt(-1), h: big.NewInt(-1)}
+					}
+					csSVG.Add(svgCaseTerm(id, f.step.Via, f.step.S, obs))
+				}
+			}
+		}
+		r.Case("history/"+stratum, key, written >= 1 && len(steps) >= 2)
+		histFeatures(steps, histCnt)
+		if stratum == "corpus" || len(bad) > 0 {
+			r.Sample(map[string]interface{}{"kind": "history", "stratum": stratum, "steps": headH(steps), "violations": bad})
+		}
+		if len(bad) > 0 {
+			histViol++
+			// candidates of the minimisation get a short time limit; the result is confirmed with the full one
+			fails := func(c []HStep) bool { b, ok := freshHist(dir, c, 5*time.Second); return ok && len(b) > 0 }
+			min, what := steps, bad[0]
+			fb, ok := freshHist(dir, steps, histTimeout)
+			switch {
+			case ok && len(fb) > 0: // the history alone, in a new process
+				what = fb[0]
+			case ok && fails(append(append([]HStep{}, histPrior...), steps...)): // only after the earlier histories of this run
+				min = append(append([]HStep{}, histPrior...), steps...)
+			case ok:
+				what += " (seen in this process only: neither the history alone nor all histories of this run fail in a new process)"
+				ok = false
+			}
+			if ok && histViol <= 2 {
+				if m := shrinkHist(min, fails); len(m) > 0 {
+					if b, ok2 := freshHist(dir, m, histTimeout); ok2 && len(b) > 0 {
+						min, what = m, b[0]
+					}
+				}
+			}
+			r.Violate(keyOf("hist", min), "history of export calls in one process: "+what, map[string]interface{}{"kind": "hist", "steps": min})
+		}
+		histPrior = append(histPrior, steps...)
+	}
+
 	writeAll := func() error {
+		r.Coverage["histories"] = histCnt
+		r.Coverage["dev_full_available"] = devfull
 		for _, cs := range []*Cases{csMF, csMB, csDXF, csSVG, csOPS} {
 			if err := cs.Write(c.Out); err != nil {
 				return err
@@ -1166,6 +1364,7 @@ func checkC15(c *Ctx, r *Report) error {
 					Variant int             `json:"variant"`
 					Chunks  json.RawMessage `json:"chunks"`
 					Ops     []DxfOp         `json:"ops"`
+					Steps   []HStep         `json:"steps"`
 				} `json:"input"`
 			} `json:"failing_inputs"`
 		}
@@ -1180,6 +1379,8 @@ func checkC15(c *Ctx, r *Report) error {
 			switch f.Input.Kind {
 			case "dxfops":
 				opsCase("replay", f.Input.Ops)
+			case "hist":
+				histCase("replay", f.Input.Steps)
 			case "mf":
 				var ch [][]Tri
 				if err := json.Unmarshal(f.Input.Chunks, &ch); err != nil {
@@ -1230,6 +1431,9 @@ func checkC15(c *Ctx, r *Report) error {
 	for _, e := range corpus.Ops {
 		opsCase("corpus", e.Ops)
 	}
+	for _, e := range corpus.Hist {
+		histCase("corpus", e.Steps)
+	}
 
 	// ---- generated
 	nMF := TierN(c.Tier, 600, 6000, 1500)
@@ -1275,11 +1479,18 @@ func checkC15(c *Ctx, r *Report) error {
 		st, ops := genOps(rng, k)
 		opsCase(st, ops)
 	}
+	// histories of export calls (failing calls, retries, overwriting, exports inside exports): last, because an
+	// implementation whose exports wait for each other leaves stuck goroutines behind
+	nHist := TierN(c.Tier, 126, 1512, 504)
+	for k := 0; k < nHist && histViol < 8; k++ {
+		st, steps := genHist(rng, k, devfull)
+		histCase(st, steps)
+	}
 	return writeAll()
 }
 
 func fillReport(r *Report) {
-	r.Rule = "3mf: triangle lists built from a vertex pool (shared, duplicate, degenerate, winding-reversed triangles; sizes 0, 1, 2..12, 20..90, 257..700; Write chunkings: one call, one per call, around 127/128/129/255/256/257, random 0..7) in eight magnitude classes (dyadic grid, arbitrary float64, tiny incl. float32 subnormals, +-5000 straddling the go3mf bucket bound 2147.48, float32 neighbours of +-2147.4836, float32 neighbours in [8,2148), 1e6..1e12, sub-micron neighbours; +-0 mixed in). dxf/svg: segment lists (zero-length, axis-parallel, connected polylines, duplicates, reversed; sizes 0, 1, 2..12, 20..90, 129..420) in seven magnitude classes through ToDXF/SaveDXF/DXF.Lines and ToSVG/SaveSVG/SVG.Line. collinear-chain: segments laid end to end along one line with bit-identical shared end points, repeated, reversed and zero-length members (horizontal, vertical, oblique on a dyadic grid) through all six DXF/SVG entry points. dxf-object-ops: histories of one DXF drawing object - NewDXF, then 0..30 random Line/Lines/Points/Triangle/Box calls (Points never / before / between / after the segment operations), Save - compared entity by entity (kind, layer, coordinates, order). go3mf-meshbuilder: the library's AddVertex driven directly on float32 corners. Non-trivial = at least one item; distinct by the full chunked input."
+	r.Rule = "3mf: triangle lists built from a vertex pool (shared, duplicate, degenerate, winding-reversed triangles; sizes 0, 1, 2..12, 20..90, 257..700; Write chunkings: one call, one per call, around 127/128/129/255/256/257, random 0..7) in eight magnitude classes (dyadic grid, arbitrary float64, tiny incl. float32 subnormals, +-5000 straddling the go3mf bucket bound 2147.48, float32 neighbours of +-2147.4836, float32 neighbours in [8,2148), 1e6..1e12, sub-micron neighbours; +-0 mixed in). dxf/svg: segment lists (zero-length, axis-parallel, connected polylines, duplicates, reversed; sizes 0, 1, 2..12, 20..90, 129..420) in seven magnitude classes through ToDXF/SaveDXF/DXF.Lines and ToSVG/SaveSVG/SVG.Line. collinear-chain: segments laid end to end along one line with bit-identical shared end points, repeated, reversed and zero-length members (horizontal, vertical, oblique on a dyadic grid) through all six DXF/SVG entry points. dxf-object-ops: histories of one DXF drawing object - NewDXF, then 0..30 random Line/Lines/Points/Triangle/Box calls (Points never / before / between / after the segment operations), Save - compared entity by entity (kind, layer, coordinates, order). go3mf-meshbuilder: the library's AddVertex driven directly on float32 corners. history: sequences of 2..6 export calls in this one process over all formats and entry points (To3MF; ToDXF/SaveDXF/NewDXF+Lines+Save; ToSVG/SaveSVG/NewSVG+Line+Save) - failed-then-retried (a call that cannot write its file: /dev/full = created but every write fails, missing directory, directory as path; then the same geometry to a good path, then geometry sharing vertices / end points with it), same-twice (same path and another path), overwrite (a file written over a larger / smaller earlier file of the same name), nested (an export started from inside the renderer of a To* call or between the calls on a drawing object, itself failing or not, sharing geometry with its host), mixed (all of these at random, formats mixed); payloads related to earlier ones (identical, re-chunked, permuted part, other triangles / segments over the same vertices, part new); every file of a call not made to fail is read back at once and judged like the file of a fresh process (same oracles, same Coq cases), and once more at the end of the history; the whole file must be one document (nothing after the root element / the EOF group). A failing history is confirmed and minimised in fresh processes. Non-trivial = at least one item (history: at least two calls and one non-empty written file); distinct by the full chunked input."
 	r.Trusted = append(r.Trusted,
 		"hand model coq/Io/Export.v of write3MF / NewDXF, SaveDXF, writeDXF / SVG.Line, SVG.Save tied by differential execution (cases_mf, cases_dxf, cases_svg) on files written by the real To3MF/ToDXF/ToSVG/SaveDXF/SaveSVG",
 		"model of go3mf MeshBuilder.AddVertex + newvec3IFromVec3 (amd64 float64->int32 conversion) tied by differential execution against the library (cases_mb)",
@@ -1289,6 +1500,7 @@ func fillReport(r *Report) {
 		"coordinates are finite and within float32 range for 3MF (NaN/Inf/overflowing inputs are not geometry; with the repaired write3MF a NaN vertex is never merged with another one)",
 		"'exact' is read at the precision the formats print: 3MF 4 decimals of the float32 value, DXF 16 decimals (exact float64 round trip from magnitude 1 upwards, checked), SVG 2 decimals of the float64 difference (tolerance: half a unit of the last digit plus one float64 rounding)",
 		"the repartition of Write calls into channel batches by Triangle3Buffer/Line2Buffer is not modelled; the theorems show the result does not depend on the batching",
+		"histories: nothing is required of a call whose file cannot be written except that it returns; exports running at the same time are produced deterministically (one export started from inside another), not by racing threads",
 		"the OPC/zip container, the DXF header/tables and the SVG prologue are the libraries' business; only the geometry, the unit, the object/build structure, the layer name and the line style are observed")
 }
 
@@ -1304,6 +1516,14 @@ func headT(ch [][]Tri) [][]Tri {
 		}
 		o = append(o, c)
 		n += len(c)
+	}
+	return o
+}
+func headH(steps []HStep) []HStep {
+	o := make([]HStep, len(steps))
+	for i, s := range steps {
+		s.T, s.S, s.Inner = headT(s.T), headS(s.S), headH(s.Inner)
+		o[i] = s
 	}
 	return o
 }
